@@ -529,3 +529,40 @@ def r07_6_shortcuts(ctx: Ctx) -> RuleResult:
             else:
                 rr.ok({"create": f.qual, "configuration_tested": sorted(used)})
     return rr
+
+
+@rule("C07")
+def r07_7_duration_total_fields(ctx: Ctx) -> RuleResult:
+    """The getter behind the duration pattern's total fields (H, M, S) returns the magnitude of the duration in whole units:
+    for d days + n ns in floor form, |d*day + n| // unit - decided on intervals for d < 0 with n == 0, d < 0 with n > 0, d >= 0."""
+    from ..absint import Obj
+    from ..oblig import interp as mk
+
+    rr = RuleResult("R07.7", "duration total fields (H / M / S): the formatted number is the magnitude of the duration in whole units, for negative durations with and without a partial day and for positive ones", min_instances=9)
+    M = ctx.M
+    f = M.func("_DurationPatternParser.__get_positive_nanosecond_units", required=False)
+    if f is None:
+        raise AnalysisError("_DurationPatternParser.__get_positive_nanosecond_units vanished")
+    NPD = M.fold_class_const("PyodaConstants", "NANOSECONDS_PER_DAY")
+    for unit, npu_name, upd_name in (("H", "NANOSECONDS_PER_HOUR", "HOURS_PER_DAY"), ("M", "NANOSECONDS_PER_MINUTE", "MINUTES_PER_DAY"), ("S", "NANOSECONDS_PER_SECOND", "SECONDS_PER_DAY")):
+        npu, upd = M.fold_class_const("PyodaConstants", npu_name), M.fold_class_const("PyodaConstants", upd_name)
+        if not all(isinstance(x, int) for x in (npu, upd, NPD)):
+            raise AnalysisError("duration unit constants not foldable")
+        cases = [
+            ("negative, whole days", -3, Iv(0, 0), (3 * upd, 3 * upd)),
+            ("negative, partial day", -3, Iv(1, NPD - 1), (2 * upd, 3 * upd - 1)),
+            ("positive", 4, Iv(0, NPD - 1), (4 * upd, 5 * upd - 1)),
+        ]
+        for label, d, n, (lo, hi) in cases:
+            rr.inst()
+            rr.states += 1
+            I = mk(ctx)
+            I.max_depth = 6
+            dur = Obj("Duration", {mangle("Duration", "__days"): Iv(d, d), mangle("Duration", "__nano_of_day"): n, "$exact": Iv(1, 1)})
+            rets, _ = I.analyse(f, params={"duration": dur, "nanoseconds_per_unit": Iv(npu, npu), "units_per_day": Iv(upd, upd)})
+            vals = [v for v, _ in rets]
+            if vals and all(isinstance(v, Iv) and v.within(lo, hi) for v in vals):
+                rr.ok({"unit": unit, "case": label, "result": [repr(v) for v in vals], "expected_window": [lo, hi]})
+            else:
+                rr.fail(f.qual, f"total field {unit}, {label} duration ({d} days + {n} ns in floor form): the formatted magnitude is {vals}, expected within [{lo}, {hi}] - the text then parses back to a different duration", f.loc)
+    return rr
